@@ -545,6 +545,10 @@ public:
   {
     if (hasNode(nodeObject))
       throw Exception("AssociationGraphImplObserver::associateNode : node already exists: " + nodeToString(nodeObject));
+    // the graph node must exist and be free: one object per node
+    getGraph()->nodeMustExist_(graphNode, "node to associate");
+    if (getNodeFromGraphid(graphNode) != 00)
+      throw Exception("AssociationGraphImplObserver::associateNode : graph node already associated: " + TextTools::toString(graphNode));
 
     // nodes vector must be the right size. Eg: to store a node with
     // the ID 3, the vector must be of size 4: {0,1,2,3} (size = 4)
@@ -565,6 +569,10 @@ public:
   {
     if (hasEdge(edgeObject))
       throw Exception("AssociationGraphImplObserver::associateEdge : edge already exists: " + edgeToString(edgeObject));
+    // the graph edge must exist and be free: one object per edge
+    getGraph()->edgeMustExist_(graphEdge, "edge to associate");
+    if (getEdgeFromGraphid(graphEdge) != 00)
+      throw Exception("AssociationGraphImplObserver::associateEdge : graph edge already associated: " + TextTools::toString(graphEdge));
 
     // edges vector must be the right size. Eg: to store an edge with
     // the ID 3, the vector must be of size 4: {0,1,2,3} (size = 4)
